@@ -858,9 +858,16 @@ class SqlGenX:
             return f"{self.cond(cols, depth + 1)} {k(rng.choice(['AND', 'OR']))} {self.cond(cols, depth + 1)}"
         if r < 0.9:
             return f"{k('NOT')} {a} = {b}"
-        if r < 0.95:
+        if r < 0.93:
             return f"{a} {k('BETWEEN')} 0 {k('AND')} 3"
-        return f"{a} {k('LIKE')} 'x%'"
+        quals = [(q_, c_) for q_, c_, _ in cols if q_] if cols and isinstance(cols[0], tuple) else []
+        if r < 0.97 or not quals or not self.f.get("deep_correlated", True):
+            return f"{a} {k('LIKE')} 'x%'"
+        # a table alias of this query referenced only from a subquery two levels down
+        q_, c_ = rng.choice(quals)
+        self.used.add("correlated:two-levels")
+        return (f"{k('EXISTS')} ({k('SELECT')} 1 {k('FROM')} t3 {k('WHERE')} t3.k {k('IN')} "
+                f"({k('SELECT')} d {k('FROM')} t2 {k('WHERE')} t2.a = {q_}.{c_}))")
 
     def source(self, depth):
         """FROM clause: returns (sql, cols, extra_where or None)."""
@@ -897,6 +904,10 @@ class SqlGenX:
                 l, rr = rr, l
                 self.used.add("join:reversed-condition")
             on = f"{l}{rng.choice([' = ', '=', ' = '])}{rr}"
+            if self.f.get("join_arith", True) and rng.random() < 0.3:
+                # the comparison continues past the second column: not symmetric in its operands any more
+                on += rng.choice([" + 1", " - 1", " + 0", " * 2"])
+                self.used.add("join:arith-condition")
             if rng.random() < 0.25:
                 on += f" {k('AND')} {q}.{rng.choice(T[t])} {rng.choice(['<>', '!=', '<', '>='])} {a2}.{rng.choice(cols2)}"
             if kind == "cross" and self.f["cross_join"]:
